@@ -13,6 +13,7 @@ import SamVerif.Drive.C14
 import SamVerif.Drive.C15
 import SamVerif.Drive.C06
 import SamVerif.Drive.C05
+import SamVerif.Drive.C13
 open SamVerif.Drive
 
 def dispatch (line : String) : String :=
@@ -28,6 +29,7 @@ def dispatch (line : String) : String :=
     else if k.startsWith "c15." then C15.handle k args impl
     else if k.startsWith "c06." then C06.handle k args impl
     else if k.startsWith "c05." then C05.handle k args impl
+    else if k.startsWith "c13." then C13.handle k args impl
     else "bad-op"
   | _ => "bad-op"
 
